@@ -1,18 +1,22 @@
-(* VamDefragPass.v — BeginDefragPass keeps the representation invariant (block lists of granularity 1).
+(* VamDefragPass.v — BeginDefragPass keeps the representation invariant (block lists of any granularity).
 
    The move collection is not modelled again in VamDefrag.v: the block list is projected to the state of the
    validated planner model Defrag.v, Defrag.collect_moves runs there, and the result is written back.  This file
    is the bridge in both directions:
-     project_wf       VamInv of the allocator gives DefragProofs.WF of the projection (needs granularity 1: the
-                      planner proofs are for blocks whose TLSF metadata has granularity 1);
+     project_wf       VamInv + VamGran.GV of the allocator give DefragGranProofs.WFp (bl_gran l) of the projection of list l;
      collect_list_inv what DefragProofs proves about collect_moves (CInv: WF of the result, the table grows by
                       exactly the temporaries, every live region is an old one or the temporary of a new move)
                       gives VamInv of the state after the write-back and validity of the pending moves. *)
 From Coq Require Import ZArith NArith List Bool Lia Permutation.
-From Arsenal Require Util Bits Gran Tlsf TlsfStep TlsfInv2 SyncMem Budget Select Pass PassProofs Defrag DefragProofs VamDefragBridge.
+From Arsenal Require Util Bits Gran GranInv GranTlsf Tlsf TlsfStep TlsfInv2 SyncMem Budget Select Pass PassProofs Defrag DefragGranProofs VamDefragBridge.
 From Arsenal Require Import VamDev VamBlockList VamDefrag Vam VamInvMeta VamInv VamInvUpd VamInvDev VamInvStep VamInvStep2 VamInvThm
-  VamDefragInv VamDefragStep.
+  VamDefragInv VamDefragStep VamGran.
 Import ListNotations.
+
+Module G := DefragGranProofs.
+Notation WFp := G.WFp.
+Notation CInvp := VamDefragBridge.CInvp.
+
 Open Scope Z_scope.
 
 (* ---------------------------------------------------------------- lists *)
@@ -98,7 +102,7 @@ Lemma project_find bs bl id t :
   (Defrag.find_id id bl = Some t <-> exists b, In b bs /\ bk_id b = id /\ bk_meta b = MTlsf t).
 Proof.
   intros H Hnd. destruct (project_blocks_spec bs bl H) as (I1 & I2). rewrite <- I2.
-  apply DefragProofs.find_id_in_iff. rewrite I1. exact Hnd.
+  apply G.find_id_in_iff. rewrite I1. exact Hnd.
 Qed.
 
 Lemma project_all_tlsf bs bl b : project_blocks bs = Some bl -> In b bs -> exists t, bk_meta b = MTlsf t.
@@ -130,8 +134,8 @@ Qed.
 (* ---------------------------------------------------------------- the temporaries of a collected pass (planner level) *)
 
 (* every new move has its temporary's region record in the destination block, tagged with the temporary *)
-Lemma tmp_region_exists st ms0 p ix cs new m :
-  DefragProofs.WF st -> Defrag.d_sentinel st = false -> DefragProofs.CInv st ms0 p ix cs new -> In m new ->
+Lemma tmp_region_exists gg st ms0 p ix cs new m :
+  WFp gg st -> Defrag.d_sentinel st = false -> CInvp gg st ms0 p ix cs new -> In m new ->
   exists t t' es,
     Defrag.find_id (Defrag.m_dstblk m) (Defrag.d_blocks st) = Some t /\
     Defrag.find_id (Defrag.m_dstblk m) (Defrag.d_blocks (Defrag.cs_st cs)) = Some t' /\
@@ -142,27 +146,27 @@ Lemma tmp_region_exists st ms0 p ix cs new m :
                          (Defrag.m_size m) (Defrag.u_align es)) (Tlsf.live t').
 Proof.
   intros HW Hsn HC Hm.
-  pose proof (DefragProofs.ci_wf _ _ _ _ _ _ HC) as HW'. pose proof (DefragProofs.ci_ext _ _ _ _ _ _ HC) as He.
-  pose proof (DefragProofs.ci_ok _ _ _ _ _ _ HC) as Hok. rewrite Forall_forall in Hok.
-  destruct (DefragProofs.ci_reg _ _ _ _ _ _ HC) as [_ _ Hlive]. destruct (DefragProofs.ci_tmps _ _ _ _ _ _ HC) as (Hndt & _).
+  pose proof (G.ci_wf Gran.HVam gg (GranTlsf.GInv gg) GranInv.kind_ok _ _ _ _ _ _ HC) as HW'. pose proof (G.ci_ext Gran.HVam gg (GranTlsf.GInv gg) GranInv.kind_ok _ _ _ _ _ _ HC) as He.
+  pose proof (G.ci_ok Gran.HVam gg (GranTlsf.GInv gg) GranInv.kind_ok _ _ _ _ _ _ HC) as Hok. rewrite Forall_forall in Hok.
+  destruct (G.ci_reg Gran.HVam gg (GranTlsf.GInv gg) GranInv.kind_ok _ _ _ _ _ _ HC) as [_ _ Hlive]. destruct (G.ci_tmps Gran.HVam gg (GranTlsf.GInv gg) GranInv.kind_ok _ _ _ _ _ _ HC) as (Hndt & _).
   destruct (Hok m Hm) as [_ _ _ (es & E1 & E2 & E3 & E4 & E5) (et & T1 & T2 & T3 & T4 & T5) Hnew].
-  destruct (DefragProofs.wf_own _ HW' _ _ T1) as ((b & (t' & F' & Hb & Ho) & _) & _).
+  destruct (G.wf_own Gran.HVam gg (GranTlsf.GInv gg) GranInv.kind_ok _ HW' _ _ T1) as ((b & (t' & F' & Hb & Ho) & _) & _).
   rewrite T3 in F'. rewrite T4 in Ho.
   assert (Hids : In (Defrag.m_dstblk m) (map fst (Defrag.d_blocks st))).
-  { destruct He as (Hi & _). rewrite <- Hi. eapply DefragProofs.find_id_some_in; eauto. }
-  destruct (DefragProofs.in_ids_find _ _ Hids) as (t & F).
+  { destruct He as (Hi & _). rewrite <- Hi. eapply G.find_id_some_in; eauto. }
+  destruct (G.in_ids_find _ _ Hids) as (t & F).
   exists t, t', es. split; [exact F|]. split; [exact F'|]. split; [exact E1|]. split; [exact E2|]. split; [exact E5|].
   split; [exact E3|]. split; [exact E4|]. split; [exact Hnew|].
   destruct (Hlive _ _ _ F F') as (_ & Hcase). destruct (Hcase b Hb) as [Hold|(m' & Hm' & Hd' & (es' & Es' & Eb))].
-  - exfalso. assert (Hh : DefragProofs.holds st (Defrag.m_dstblk m) (Defrag.m_dstoff m) b) by (exists t; auto).
-    destruct (DefragProofs.wf_owned _ HW _ _ _ Hh) as (s0 & e0 & En0 & Eb0 & Eo0).
-    pose proof (DefragProofs.entry_lt _ _ _ En0) as Hlt. pose proof (DefragProofs.ext_entry _ _ _ _ He En0) as En0'.
-    assert (s0 = Defrag.m_tmp m) by (eapply (DefragProofs.wf_inj _ HW'); eauto; congruence). lia.
+  - exfalso. assert (Hh : G.holds st (Defrag.m_dstblk m) (Defrag.m_dstoff m) b) by (exists t; auto).
+    destruct (G.wf_owned Gran.HVam gg (GranTlsf.GInv gg) GranInv.kind_ok _ HW _ _ _ Hh) as (s0 & e0 & En0 & Eb0 & Eo0).
+    pose proof (G.entry_lt _ _ _ En0) as Hlt. pose proof (G.ext_entry _ _ _ _ He En0) as En0'.
+    assert (s0 = Defrag.m_tmp m) by (eapply (G.wf_inj Gran.HVam gg (GranTlsf.GInv gg) GranInv.kind_ok _ HW'); eauto; congruence). lia.
   - destruct (Hok m' Hm') as [_ _ _ _ (et' & T1' & T2' & T3' & T4' & T5') _].
     assert (Hoff : Defrag.m_dstoff m' = Defrag.m_dstoff m) by (rewrite <- Ho, Eb; reflexivity).
-    assert (Defrag.m_tmp m' = Defrag.m_tmp m) by (eapply (DefragProofs.wf_inj _ HW'); eauto; congruence).
+    assert (Defrag.m_tmp m' = Defrag.m_tmp m) by (eapply (G.wf_inj Gran.HVam gg (GranTlsf.GInv gg) GranInv.kind_ok _ HW'); eauto; congruence).
     assert (m' = m) by (eapply (nodup_map_in_eq Defrag.m_tmp new); eauto). subst m'.
-    rewrite E1 in Es'. injection Es' as <-. unfold DefragProofs.tmp_tag_of in Eb. rewrite Hsn in Eb. rewrite <- Eb. exact Hb.
+    rewrite E1 in Es'. injection Es' as <-. unfold G.tmp_tag_of in Eb. rewrite Hsn in Eb. rewrite <- Eb. exact Hb.
 Qed.
 
 Section WithCfg.
@@ -195,9 +199,9 @@ Qed.
 (* ---------------------------------------------------------------- VamInv gives WF of the projection *)
 
 Lemma project_wf v lr l st :
-  VamInv c v -> get_blist v lr = Some l -> bl_gran l = 1 -> project v lr = Some st -> DefragProofs.WF st.
+  VamInv c v -> GV v -> get_blist v lr = Some l -> project v lr = Some st -> WFp (bl_gran l) st.
 Proof.
-  intros HI Hg Hg1 Hp. unfold project in Hp. rewrite Hg in Hp.
+  intros HI HV Hg Hp. unfold project in Hp. rewrite Hg in Hp.
   destruct (project_blocks (bl_blocks l)) as [bl|] eqn:Epb; [|discriminate]. injection Hp as <-.
   pose proof (vi_lists _ _ _ _ HI _ _ Hg) as Hwf. pose proof (bw_nodup _ _ Hwf) as Hnd.
   pose proof (bw_meta _ _ Hwf) as Hmeta. rewrite Forall_forall in Hmeta.
@@ -220,7 +224,8 @@ Proof.
     + destruct (project_blocks_spec _ _ Epb) as (I1 & _). cbn [Defrag.d_blocks]. rewrite I1. exact Hnd.
     + cbn [Defrag.d_blocks]. intros id t Hf. apply (Hfind id t Epb Hnd) in Hf. destruct Hf as (b & B & Hid & Et).
       pose proof (Hmeta _ B) as Hmi. rewrite Et in Hmi. cbn in Hmi. destruct Hmi as (HT & H2).
-      pose proof (Hgg _ B) as G. rewrite Et in G. cbn in G. split; [exact HT|]. split; [congruence|exact H2].
+      destruct (gv_blocks _ HV _ _ _ Hg B) as (_ & HGi). specialize (HGi t Et). pose proof HGi as [_ Hh Hgg' _ _ _ _ _].
+      split; [exact HT|]. split; [|exact H2]. split; [exact Hgg'|]. split; [intros _; exact Hh|exact HGi].
   - intros s e He. destruct (Hown s e He) as (a & b & t & blk & Sa & Ka & La & -> & B & Hid & Et & Hblk & Ho & Htg & Hsz).
     cbn [Defrag.u_blk Defrag.u_off Defrag.u_size Defrag.u_align]. split; [|split].
     + exists blk. split; [|split; [exact Hsz|left; exact Htg]].
@@ -242,8 +247,13 @@ Proof.
     { pose proof (in_find_block _ _ Hnd B1) as F1. pose proof (in_find_block _ _ Hnd B2) as F2. rewrite Hid1 in F1. rewrite Hid2, <- Eb in F2. congruence. }
     subst b2. assert (t2 = t1) by congruence. subst t2.
     pose proof (Hmeta _ B1) as Hmi. rewrite Et1 in Hmi. destruct Hmi as ((Hinv & _) & _).
-    assert (k1 = k2) by (eapply DefragProofs.live_off_inj; eauto; congruence). subst k2.
+    assert (k1 = k2) by (eapply G.live_off_inj; eauto; congruence). subst k2.
     rewrite Htg1 in Htg2. injection Htg2 as E. lia.
+  - (* the stored size is the rounded size; the suballocation type is one of the five *)
+    intros s e He. destruct (Hown s e He) as (a & b & t & blk & Sa & Ka & La & -> & B & Hid & Et & _).
+    cbn [Defrag.u_kind Defrag.u_size]. destruct (gv_allocs _ HV _ _ Sa Ka) as (X1 & X2). split; [|exact X1].
+    apply X2; [rewrite La; exact Hg|]. destruct (gv_blocks _ HV _ _ _ Hg B) as (Hk & _). rewrite Et in Hk. cbn in Hk.
+    symmetry in Hk. apply Z.eqb_eq in Hk. exact Hk.
 Qed.
 
 (* ---------------------------------------------------------------- the write-back: commit_moves *)
@@ -460,7 +470,7 @@ Lemma unproject_in bs bl' b1 :
   exists b t', In b bs /\ Defrag.find_id (bk_id b) bl' = Some t' /\ b1 = mkBlock (bk_id b) (bk_mem b) (bk_sm b) (MTlsf t').
 Proof.
   intros Hids Hin. apply in_map_iff in Hin. destruct Hin as (b & <- & Hb).
-  destruct (DefragProofs.in_ids_find (bk_id b) bl') as (t' & F); [rewrite Hids; apply in_map; exact Hb|].
+  destruct (G.in_ids_find (bk_id b) bl') as (t' & F); [rewrite Hids; apply in_map; exact Hb|].
   exists b, t'. rewrite F. auto.
 Qed.
 
@@ -474,24 +484,31 @@ Proof. split; [lia|auto]. Qed.
 Lemma grown_trans a b d : grown a b -> grown b d -> grown a d.
 Proof. intros (A1 & A2) (B1 & B2). split; [lia|]. intros s Hs. rewrite B2 by lia. apply A2. exact Hs. Qed.
 
-Lemma writeback_inv v lr l bl ms0 p0 ix cs new log :
-  VamInv c v -> get_blist v lr = Some l -> project_blocks (bl_blocks l) = Some bl ->
-  DefragProofs.WF (Defrag.mkD bl (map (project_entry lr) (v_tab v)) false) ->
-  DefragProofs.CInv (Defrag.mkD bl (map (project_entry lr) (v_tab v)) false) ms0 p0 ix cs new ->
+Lemma Forall2_nth_r {A B} (R : A -> B -> Prop) l1 l2 i b : Forall2 R l1 l2 -> nth_error l2 i = Some b -> exists a, In a l1 /\ R a b.
+Proof.
+  intros H. revert i. induction H as [|x y l1 l2 Hxy _ IH]; intros [|i] E; cbn in E; try discriminate.
+  - injection E as <-. exists x. split; [left; reflexivity|exact Hxy].
+  - destruct (IH i E) as (a & Ha & Hr). exists a. split; [right; exact Ha|exact Hr].
+Qed.
+
+Lemma writeback_inv gg v lr l bl ms0 p0 ix cs new log :
+  VamInv c v -> GV v -> bl_gran l = gg -> get_blist v lr = Some l -> project_blocks (bl_blocks l) = Some bl ->
+  WFp gg (Defrag.mkD bl (map (project_entry lr) (v_tab v)) false) ->
+  CInvp gg (Defrag.mkD bl (map (project_entry lr) (v_tab v)) false) ms0 p0 ix cs new ->
   ix = Defrag.indexed (Defrag.mkD bl (map (project_entry lr) (v_tab v)) false) -> new = Defrag.log_moves log ->
   let v1 := set_blist v lr (set_blocks l (unproject_blocks (bl_blocks l) (Defrag.d_blocks (Defrag.cs_st cs)))) in
   let '(v2, r) := replay_log c v1 lr log in
   match r with
-  | OK _ => VamInv c v2 /\ lists_frame v v2 /\ grown v v2 /\ moves_ok v2 lr new
+  | OK _ => VamInv c v2 /\ lists_frame v v2 /\ grown v v2 /\ moves_ok v2 lr new /\ GV v2
   | ER _ => False
   | _ => True
   end.
 Proof.
-  intros HI Hg Epb HW HC Hix Hlog. cbn zeta.
+  intros HI HV Egg Hg Epb HW HC Hix Hlog. cbn zeta.
   set (st := Defrag.mkD bl (map (project_entry lr) (v_tab v)) false) in *.
-  pose proof (DefragProofs.ci_wf _ _ _ _ _ _ HC) as HW'. pose proof (DefragProofs.ci_ext _ _ _ _ _ _ HC) as He.
-  pose proof (DefragProofs.ci_ok _ _ _ _ _ _ HC) as Hok. rewrite Forall_forall in Hok.
-  destruct (DefragProofs.ci_reg _ _ _ _ _ _ HC) as [_ _ Hlive].
+  pose proof (G.ci_wf Gran.HVam gg (GranTlsf.GInv gg) GranInv.kind_ok _ _ _ _ _ _ HC) as HW'. pose proof (G.ci_ext Gran.HVam gg (GranTlsf.GInv gg) GranInv.kind_ok _ _ _ _ _ _ HC) as He.
+  pose proof (G.ci_ok Gran.HVam gg (GranTlsf.GInv gg) GranInv.kind_ok _ _ _ _ _ _ HC) as Hok. rewrite Forall_forall in Hok.
+  destruct (G.ci_reg Gran.HVam gg (GranTlsf.GInv gg) GranInv.kind_ok _ _ _ _ _ _ HC) as [_ _ Hlive].
   set (st' := Defrag.cs_st cs) in *. set (bl' := Defrag.d_blocks st') in *.
   pose proof (vi_lists _ _ _ _ HI _ _ Hg) as Hwf. pose proof (bw_nodup _ _ Hwf) as Hnd.
   destruct (project_blocks_spec _ _ Epb) as (Hids & _).
@@ -507,7 +524,7 @@ Proof.
             slot_is v (src_of m) a /\ a_kind a = 1 /\ a_lref a = lr /\ a_size a = Defrag.m_size m /\
             a_blk a = Defrag.m_srcblk m /\ a_handle a = Defrag.m_srcoff m /\ zlen (v_tab v) <= tmp_of m /\
             In (TlsfStep.new_blk (Defrag.m_dstoff m) (Defrag.m_size m) (Some (tmp_of m)) (a_sub a) (Defrag.m_size m) (a_align a)) (Tlsf.live t')).
-  { intros m Hm. destruct (tmp_region_exists st ms0 p0 ix cs new m HW eq_refl HC Hm) as (t & t' & es & F & F' & E1 & E2 & E3 & E4 & E5 & Hlen & Hin).
+  { intros m Hm. destruct (tmp_region_exists gg st ms0 p0 ix cs new m HW eq_refl HC Hm) as (t & t' & es & F & F' & E1 & E2 & E3 & E4 & E5 & Hlen & Hin).
     destruct (entry_project _ _ _ _ _ _ E1) as (a & Sa & Ka & La & ->).
     cbn [Defrag.u_size Defrag.u_blk Defrag.u_off Defrag.u_kind Defrag.u_align] in *.
     exists t, t', a. split; [exact F|]. split; [exact F'|]. split; [exact Sa|]. split; [exact Ka|]. split; [exact La|].
@@ -542,13 +559,12 @@ Proof.
   { rewrite Hcfg2. destruct Hwf as [W1 W2 W3 W4 W5 W6 W7 W8]. constructor; cbn; auto.
     - apply Forall_forall. intros b2 Hb2. destruct (Hl2 _ Hb2) as (b & _ & _ & Hb & Hi & _). rewrite Hi. rewrite Forall_forall in W2. auto.
     - apply Forall_forall. intros b2 Hb2. destruct (Hl2 _ Hb2) as (b & t & t' & Hb & Hi & _ & _ & Emt & _ & F').
-      rewrite Emt. cbn. destruct (DefragProofs.wb_tinv _ (DefragProofs.wf_b _ HW') _ _ F') as (HT & _ & H2). split; auto.
+      rewrite Emt. cbn. destruct (G.wb_tinv Gran.HVam gg (GranTlsf.GInv gg) _ (G.wf_b Gran.HVam gg (GranTlsf.GInv gg) GranInv.kind_ok _ HW') _ _ F') as (HT & _ & H2). split; auto.
     - apply Forall_forall. intros b2 Hb2. destruct (Hl2 _ Hb2) as (b & t & t' & Hb & Hi & _ & Emt0 & Emt & F & F').
-      rewrite Emt. cbn. destruct (DefragProofs.wb_tinv _ (DefragProofs.wf_b _ HW') _ _ F') as (_ & G1 & _).
-      rewrite G1. rewrite Forall_forall in W8. rewrite <- (W8 _ Hb), Emt0. cbn.
-      destruct (DefragProofs.wb_tinv _ (DefragProofs.wf_b _ HW) _ _ F) as (_ & G0 & _). symmetry. exact G0. }
+      rewrite Emt. cbn. destruct (G.wb_tinv Gran.HVam gg (GranTlsf.GInv gg) _ (G.wf_b Gran.HVam gg (GranTlsf.GInv gg) GranInv.kind_ok _ HW') _ _ F') as (_ & (G1 & _) & _).
+      rewrite G1. symmetry. exact Egg. }
   assert (Hsizes : forall id t t', Defrag.find_id id bl = Some t -> Defrag.find_id id bl' = Some t' -> Tlsf.t_size t' = Tlsf.t_size t).
-  { intros id t t' F F'. eapply DefragProofs.ext_sizes; eauto. }
+  { intros id t t' F F'. eapply G.ext_sizes; eauto. }
   (* the state before, with the machine of the state after *)
   set (v0 := set_m v (v_m v2)).
   assert (Hm01 : mach_same (v_m v) (v_m v2)) by (unfold v1 in Hmach; rewrite set_blist_m in Hmach; exact Hmach).
@@ -621,7 +637,7 @@ Proof.
         rewrite Htag in T1. injection T1 as <-. apply in_map_iff in Hs. destruct Hs as (m & E & Hm). pose proof (Hge m Hm) as G.
         pose proof (slot_is_range _ _ _ T2). lia.
       + right. destruct (Htmp m Hm) as (b1 & a & Hb1 & Hi1 & Ea & Sa). exists (tmp_of m), a.
-        subst k. unfold DefragProofs.tmp_tag_of. cbn [Defrag.d_sentinel st]. cbn [tlsf_region rg_tag rg_handle TlsfStep.new_blk Tlsf.b_tag Tlsf.b_off].
+        subst k. unfold G.tmp_tag_of. cbn [Defrag.d_sentinel st]. cbn [tlsf_region rg_tag rg_handle TlsfStep.new_blk Tlsf.b_tag Tlsf.b_off].
         split; [reflexivity|]. split; [apply in_map; exact Hm|]. split; [exact Sa|]. rewrite Ea. unfold mk_tmp. cbn [a_kind a_lref a_blk a_handle].
         split; [reflexivity|]. split; [reflexivity|]. split; [congruence|reflexivity].
     - (* alignment *)
@@ -639,7 +655,7 @@ Proof.
   split; [exact I2|].
   assert (Hgo : forall lr1, lr1 <> lr -> get_blist v2 lr1 = get_blist v lr1).
   { intros lr1 Hne. rewrite (Hoth _ Hne). unfold v1. apply get_set_blist_other. congruence. }
-  split; [|split].
+  split; [|split; [|split]].
   - constructor.
     + intros lr0 l0 G0. destruct (lref_eq_dec lr0 lr) as [->|Hne].
       * exists l2. split; [exact Hg2|]. assert (l0 = l) by congruence. subst l0. rewrite Hcfg2. apply blist_cfg_same_set_blocks.
@@ -654,35 +670,91 @@ Proof.
   - split.
     + (* no object takes part in two moves *)
       unfold mv_slots. apply NoDup_app_intro_z.
-      * pose proof (DefragProofs.ci_keys _ _ _ _ _ _ HC) as Hkeys.
-        apply (DefragProofs.NoDup_map_coarser (fun m => (Defrag.m_srcidx m, Defrag.m_srcoff m)) src_of new Hkeys).
+      * pose proof (G.ci_keys Gran.HVam gg (GranTlsf.GInv gg) GranInv.kind_ok _ _ _ _ _ _ HC) as Hkeys.
+        apply (G.NoDup_map_coarser (fun m => (Defrag.m_srcidx m, Defrag.m_srcoff m)) src_of new Hkeys).
         intros m1 m2 H1 H2 E.
         destruct (Hmv m1 H1) as (_ & _ & a1 & _ & _ & S1 & _ & _ & _ & B1 & O1 & _).
         destruct (Hmv m2 H2) as (_ & _ & a2 & _ & _ & S2 & _ & _ & _ & B2 & O2 & _).
         rewrite E in S1. assert (a1 = a2) by (destruct S1, S2; congruence). subst a2.
         destruct (Hok m1 H1) as [X1 _ _ _ _ _]. destruct (Hok m2 H2) as [X2 _ _ _ _ _].
         rewrite Hix in X1, X2. unfold Defrag.indexed in X1, X2. rewrite <- B1 in X1. rewrite <- B2 in X2.
-        f_equal; [|congruence]. eapply DefragProofs.indexed_from_id_fun; [|exact X1|exact X2].
-        apply (DefragProofs.wb_ids _ (DefragProofs.wf_b _ HW)).
+        f_equal; [|congruence]. eapply G.indexed_from_id_fun; [|exact X1|exact X2].
+        apply (G.wb_ids Gran.HVam gg (GranTlsf.GInv gg) _ (G.wf_b Gran.HVam gg (GranTlsf.GInv gg) GranInv.kind_ok _ HW)).
       * rewrite Hidx'. apply FinFun.Injective_map_NoDup; [intros i j E; lia|apply seq_NoDup].
       * intros s H1 H2. apply in_map_iff in H1. destruct H1 as (m1 & <- & Hm1). apply in_map_iff in H2. destruct H2 as (m2 & E2 & Hm2).
         destruct (Hmv m1 Hm1) as (_ & _ & a1 & _ & _ & S1 & _). pose proof (slot_is_range _ _ _ S1). pose proof (Hge m2 Hm2). lia.
     + apply Forall_forall. intros m Hm. destruct (Hmv m Hm) as (_ & _ & asrc & _ & _ & Ssrc & Ksrc & Lsrc & Zsrc & Bsrc & Osrc & _).
       assert (Tsrc : a_temp asrc = false).
-      { destruct (tmp_region_exists st ms0 p0 ix cs new m HW eq_refl HC Hm) as (_ & _ & es & _ & _ & E1 & E2 & _).
+      { destruct (tmp_region_exists gg st ms0 p0 ix cs new m HW eq_refl HC Hm) as (_ & _ & es & _ & _ & E1 & E2 & _).
         destruct (entry_project _ _ _ _ _ _ E1) as (a' & Sa' & _ & _ & ->). cbn [Defrag.u_temp] in E2.
         assert (a' = asrc) by (unfold src_of in Ssrc; destruct Sa', Ssrc; congruence). subst a'. exact E2. }
       destruct (Htmp m Hm) as (b1 & a & Hb1 & Hi1 & Ea & Sa). exists asrc, a.
       split.
       { split; [|apply Ssrc]. rewrite Htab, nth_z_app_old by (apply (slot_is_range _ _ _ Ssrc)). apply Ssrc. }
       split; [exact Sa|]. rewrite Ea. unfold mk_tmp. rewrite (Hsrc1 m asrc Hm Ssrc). cbn [a_kind a_lref a_size a_align a_blk a_handle a_temp]. auto 15.
+  - (* the granularity bookkeeping *)
+    assert (Ecfg2 : bl_gran l2 = bl_gran l /\ bl_algo l2 = bl_algo l /\ bl_minalign l2 = bl_minalign l) by (rewrite Hcfg2; repeat split).
+    destruct Ecfg2 as (Eg2 & Ea2 & Em2).
+    constructor.
+    + intros lr0 l0 G0. destruct (lref_eq_dec lr0 lr) as [->|Hne].
+      * assert (l0 = l2) by congruence. subst l0. rewrite Eg2, Em2. apply (gv_cfg _ HV _ _ Hg).
+      * rewrite Hgo in G0 by exact Hne. apply (gv_cfg _ HV _ _ G0).
+    + intros lr0 l0 b2 G0 Hb2. destruct (lref_eq_dec lr0 lr) as [->|Hne]; [|rewrite Hgo in G0 by exact Hne; apply (gv_blocks _ HV _ _ _ G0 Hb2)].
+      assert (l0 = l2) by congruence. subst l0. destruct (Hl2 _ Hb2) as (b & t & t' & Hb & Hi & _ & Emt0 & Emt & F & F').
+      destruct (gv_blocks _ HV _ _ _ Hg Hb) as (Hk & _). rewrite Emt0 in Hk. split; [rewrite Emt, Ea2; exact Hk|].
+      intros t2 Et2. rewrite Emt in Et2. injection Et2 as <-. rewrite Eg2, Egg.
+      destruct (G.wb_tinv Gran.HVam gg (GranTlsf.GInv gg) _ (G.wf_b Gran.HVam gg (GranTlsf.GInv gg) GranInv.kind_ok _ HW') _ _ F') as (_ & (_ & _ & HGi) & _). exact HGi.
+    + assert (Hold : forall a, (GranInv.kind_ok (a_sub a) /\ forall l0, get_blist v (a_lref a) = Some l0 -> bl_algo l0 = 0 -> rnd_ok (bl_gran l0) (a_sub a) (a_size a)) ->
+                       GranInv.kind_ok (a_sub a) /\ forall l0, get_blist v2 (a_lref a) = Some l0 -> bl_algo l0 = 0 -> rnd_ok (bl_gran l0) (a_sub a) (a_size a)).
+      { intros a (X1 & X2). split; [exact X1|]. intros l0 G0 A0. destruct (lref_eq_dec (a_lref a) lr) as [E|Hne].
+        - rewrite E in *. assert (l0 = l2) by congruence. subst l0. rewrite Eg2. apply X2; [exact Hg|congruence].
+        - rewrite Hgo in G0 by exact Hne. auto. }
+      intros s a (Sn & Sal) Ka. rewrite Htab in Sn. destruct (Z_lt_dec s (zlen (v_tab v))) as [Hlt|Hge0].
+      * rewrite nth_z_app_old in Sn by exact Hlt. apply Hold. apply (gv_allocs _ HV s a (conj Sn Sal) Ka).
+      * assert (Hr : 0 <= s) by (apply nth_z_some_range in Sn; lia).
+        replace s with (zlen (v_tab v) + Z.of_nat (Z.to_nat (s - zlen (v_tab v)))) in Sn by lia. rewrite nth_z_app_new in Sn.
+        destruct (Forall2_nth_r _ _ _ _ _ Htmps Sn) as (m & Hm & (b1 & Hb1 & Hi1 & Ea)).
+        destruct (Hmv m Hm) as (_ & _ & asrc & _ & _ & Ssrc & Ksrc & Lsrc & Zsrc & _).
+        assert (Emk : a_sub a = a_sub asrc /\ a_size a = a_size asrc /\ a_lref a = a_lref asrc).
+        { rewrite Ea. unfold mk_tmp. rewrite (Hsrc1 m asrc Hm Ssrc). cbn [a_sub a_size a_lref]. auto. }
+        destruct Emk as (E1 & E2 & E3). destruct (Hold asrc (gv_allocs _ HV _ _ Ssrc Ksrc)) as (X1 & X2). rewrite E1, E2, E3. split; [exact X1|exact X2].
 Qed.
 
 (* ---------------------------------------------------------------- BlockListCollectMoves of one context *)
 
+Lemma collect_list_inv_gv v dc p :
+  VamInv c v -> GV v -> Defrag.c_moves (dc_ctx dc) = [] -> PassProofs.pass_running p ->
+  let '(v', r) := collect_list c v dc p in
+  match r with
+  | OK (dc', p') =>
+      (VamInv c v' /\ lists_frame v v' /\ grown v v' /\ dc_lr dc' = dc_lr dc /\
+       moves_ok v' (dc_lr dc) (Defrag.c_moves (dc_ctx dc')) /\ PassProofs.pass_running p') /\ GV v'
+  | ER _ => False
+  | _ => True
+  end.
+Proof.
+  intros HI HV Hidle Hrun. unfold collect_list.
+  destruct (project v (dc_lr dc)) as [st|] eqn:Ep; [|exact I].
+  destruct (get_blist v (dc_lr dc)) as [l|] eqn:Hg; [|exact I].
+  pose proof (project_wf v (dc_lr dc) l st HI HV Hg Ep) as HW. set (gg := bl_gran l) in *.
+  assert (Est : exists bl, project_blocks (bl_blocks l) = Some bl /\ st = Defrag.mkD bl (map (project_entry (dc_lr dc)) (v_tab v)) false).
+  { unfold project in Ep. rewrite Hg in Ep. destruct (project_blocks (bl_blocks l)) as [bl|]; [|discriminate]. injection Ep as <-. eauto. }
+  destruct Est as (bl & Epb & ->).
+  destruct (VamDefragBridge.collect_moves_f_inv_p gg vam (att_commit c (dc_lr dc)) _ (dc_ctx dc) p v HW Hrun) as (new & HC & _).
+  destruct (VamDefragBridge.collect_moves_f_log_p vam (att_commit c (dc_lr dc)) (Defrag.mkD bl (map (project_entry (dc_lr dc)) (v_tab v)) false) (dc_ctx dc) p v) as (Hlg & _).
+  destruct (Defrag.collect_moves_f vam (att_commit c (dc_lr dc)) _ (dc_ctx dc) p v) as (((cs & env) & log) & wr).
+  unfold Defrag.res_f, Defrag.log_f in *. cbn [fst snd] in HC, Hlg.
+  pose proof (G.ci_moves Gran.HVam gg (GranTlsf.GInv gg) GranInv.kind_ok _ _ _ _ _ _ HC) as Hms. rewrite Hidle in Hms, Hlg. cbn [app] in Hms, Hlg.
+  assert (Hnew : new = Defrag.log_moves log) by congruence.
+  pose proof (writeback_inv gg v (dc_lr dc) l bl _ _ _ cs new log HI HV eq_refl Hg Epb HW HC eq_refl Hnew) as P. cbn zeta in P.
+  assert (Hw : PassProofs.pass_running (Defrag.cs_pass cs)) by (apply (G.ci_within Gran.HVam gg (GranTlsf.GInv gg) GranInv.kind_ok _ _ _ _ _ _ HC)).
+  destruct wr as [| |why]; [| |exact I];
+    (destruct (replay_log c _ (dc_lr dc) log) as (v2 & r); destruct r as [[]|code| |]; auto;
+     destruct P as (I2 & L2 & G2 & M2 & V2); cbn [dc_lr dc_ctx Defrag.c_moves]; rewrite Hms; auto 10).
+Qed.
+
 Lemma collect_list_inv v dc p :
-  VamInv c v -> Defrag.c_moves (dc_ctx dc) = [] -> PassProofs.pass_running p ->
-  (forall l, get_blist v (dc_lr dc) = Some l -> bl_gran l = 1) ->
+  VamInv c v -> GV v -> Defrag.c_moves (dc_ctx dc) = [] -> PassProofs.pass_running p ->
   let '(v', r) := collect_list c v dc p in
   match r with
   | OK (dc', p') =>
@@ -692,57 +764,35 @@ Lemma collect_list_inv v dc p :
   | _ => True
   end.
 Proof.
-  intros HI Hidle Hrun HG1. unfold collect_list.
-  destruct (project v (dc_lr dc)) as [st|] eqn:Ep; [|exact I].
-  destruct (get_blist v (dc_lr dc)) as [l|] eqn:Hg; [|exact I].
-  pose proof (project_wf v (dc_lr dc) l st HI Hg (HG1 l eq_refl) Ep) as HW.
-  assert (Est : exists bl, project_blocks (bl_blocks l) = Some bl /\ st = Defrag.mkD bl (map (project_entry (dc_lr dc)) (v_tab v)) false).
-  { unfold project in Ep. rewrite Hg in Ep. destruct (project_blocks (bl_blocks l)) as [bl|]; [|discriminate]. injection Ep as <-. eauto. }
-  destruct Est as (bl & Epb & ->).
-  destruct (VamDefragBridge.collect_moves_f_inv_g1 vam (att_commit c (dc_lr dc)) _ (dc_ctx dc) p v HW Hrun) as (new & HC & _).
-  destruct (VamDefragBridge.collect_moves_f_log_g1 vam (att_commit c (dc_lr dc)) (Defrag.mkD bl (map (project_entry (dc_lr dc)) (v_tab v)) false) (dc_ctx dc) p v) as (Hlg & _).
-  destruct (Defrag.collect_moves_f vam (att_commit c (dc_lr dc)) _ (dc_ctx dc) p v) as (((cs & env) & log) & wr).
-  unfold Defrag.res_f, Defrag.log_f in *. cbn [fst snd] in HC, Hlg.
-  pose proof (DefragProofs.ci_moves _ _ _ _ _ _ HC) as Hms. rewrite Hidle in Hms, Hlg. cbn [app] in Hms, Hlg.
-  assert (Hnew : new = Defrag.log_moves log) by congruence.
-  pose proof (writeback_inv v (dc_lr dc) l bl _ _ _ cs new log HI Hg Epb HW HC eq_refl Hnew) as P. cbn zeta in P.
-  assert (Hw : PassProofs.pass_running (Defrag.cs_pass cs)) by (apply (DefragProofs.ci_within _ _ _ _ _ _ HC)).
-  destruct wr as [| |why]; [| |exact I];
-    (destruct (replay_log c _ (dc_lr dc) log) as (v2 & r); destruct r as [[]|code| |]; auto;
-     destruct P as (I2 & L2 & G2 & M2); cbn [dc_lr dc_ctx Defrag.c_moves]; rewrite Hms; auto 10).
+  intros HI HV Hidle Hrun. pose proof (collect_list_inv_gv v dc p HI HV Hidle Hrun) as P.
+  destruct (collect_list c v dc p) as (v' & r). destruct r as [(dc' & p')|code| |]; auto. apply P.
+Qed.
+
+(* BeginDefragPass's collecting step keeps the granularity bookkeeping sound *)
+Lemma collect_list_G v dc p v' dc' p' :
+  VamInv c v -> GV v -> Defrag.c_moves (dc_ctx dc) = [] -> PassProofs.pass_running p ->
+  collect_list c v dc p = (v', OK (dc', p')) -> GV v'.
+Proof.
+  intros HI HV Hidle Hrun E. pose proof (collect_list_inv_gv v dc p HI HV Hidle Hrun) as P. rewrite E in P. apply P.
 Qed.
 
 (* ---------------------------------------------------------------- BeginDefragPass *)
 
-Definition lists_g1 (v : vam) (run : dfrun) : Prop :=
-  forall i dc l, nth_z (dr_ctxs run) i = Some dc -> get_blist v (dc_lr dc) = Some l -> bl_gran l = 1.
-
-Lemma lists_frame_g1 v v' ctxs :
-  lists_frame v v' ->
-  (forall i dc l, nth_z ctxs i = Some dc -> get_blist v (dc_lr dc) = Some l -> bl_gran l = 1) ->
-  (forall i dc l, nth_z ctxs i = Some dc -> get_blist v' (dc_lr dc) = Some l -> bl_gran l = 1).
-Proof.
-  intros F H i dc l' Hn Hg'. destruct (get_blist v (dc_lr dc)) as [l|] eqn:E.
-  - destruct (lf_some _ _ F _ _ E) as (l2 & G2 & S). assert (l2 = l') by congruence. subst l2.
-    destruct S as (_ & _ & _ & _ & Sg & _). rewrite Sg. eapply H; eauto.
-  - rewrite (lf_none _ _ F _ E) in Hg'. discriminate.
-Qed.
-
-Lemma pass_loop_inv fuel : forall v run p,
-  VamInv c v -> run_idle run -> 0 <= dr_max_bytes run -> 0 <= dr_max_allocs run -> PassProofs.pass_running p -> lists_g1 v run ->
+Lemma pass_loop_inv_gv fuel : forall v run p,
+  VamInv c v -> run_idle run -> 0 <= dr_max_bytes run -> 0 <= dr_max_allocs run -> PassProofs.pass_running p -> GV v ->
   let '(v', run', r) := pass_loop c fuel v run p in
   match r with
-  | OK _ => VamInv c v' /\ lists_frame v v' /\ grown v v' /\ run_ok v' run' /\ map dc_lr (dr_ctxs run') = map dc_lr (dr_ctxs run)
+  | OK _ => (VamInv c v' /\ lists_frame v v' /\ grown v v' /\ run_ok v' run' /\ map dc_lr (dr_ctxs run') = map dc_lr (dr_ctxs run)) /\ GV v'
   | ER _ => False
   | _ => True
   end.
 Proof.
-  induction fuel as [|f IH]; intros v run p HI Hidle Hb Ha Hrun HG; cbn [pass_loop]; [exact I|].
+  induction fuel as [|f IH]; intros v run p HI Hidle Hb Ha Hrun HV; cbn [pass_loop]; [exact I|].
   destruct (nth_z (dr_ctxs run) (dr_progress run)) as [dc|] eqn:En.
   - assert (Hdc : Defrag.c_moves (dc_ctx dc) = []) by (eapply Hidle; eauto).
-    pose proof (collect_list_inv v dc p HI Hdc Hrun (fun l Hl => HG _ _ _ En Hl)) as P.
+    pose proof (collect_list_inv_gv v dc p HI HV Hdc Hrun) as P.
     destruct (collect_list c v dc p) as (v1 & r). destruct r as [(dc' & p')|code| |]; auto.
-    destruct P as (I1 & L1 & G1 & Elr & M1 & Hrun').
+    destruct P as ((I1 & L1 & G1 & Elr & M1 & Hrun') & V1).
     pose proof (nth_z_some_range _ _ _ En) as Hrg.
     assert (Hlrs : map dc_lr (set_nth_ctx (dr_ctxs run) (dr_progress run) dc') = map dc_lr (dr_ctxs run)).
     { unfold set_nth_ctx. clear - En Elr. unfold set_nth_z, nth_z in *. destruct (dr_progress run <? 0); [reflexivity|].
@@ -757,28 +807,35 @@ Proof.
         destruct (Z.eq_dec i (dr_progress run)) as [->|Hne].
         - rewrite nth_z_set_same in Hn1 by exact Hrg. injection Hn1 as <-. exact Em.
         - rewrite nth_z_set_other in Hn1 by congruence. eapply Hidle; eauto. }
-      assert (HG1 : lists_g1 v1 run1).
-      { intros i dc1 l1 Hn1 Hg1. unfold run1 in Hn1. cbn [dr_ctxs] in Hn1. unfold set_nth_ctx in Hn1.
-        destruct (Z.eq_dec i (dr_progress run)) as [->|Hne].
-        - rewrite nth_z_set_same in Hn1 by exact Hrg. injection Hn1 as <-. rewrite Elr in Hg1.
-          eapply (lists_frame_g1 v v1 (dr_ctxs run) L1 HG); eauto.
-        - rewrite nth_z_set_other in Hn1 by congruence. eapply (lists_frame_g1 v v1 (dr_ctxs run) L1 HG); eauto. }
-      pose proof (IH v1 run1 p' I1 Hidle1 Hb Ha Hrun' HG1) as Q.
+      pose proof (IH v1 run1 p' I1 Hidle1 Hb Ha Hrun' V1) as Q.
       destruct (pass_loop c f v1 run1 p') as ((v2 & run2) & r2). destruct r2 as [mvs|code| |]; auto.
-      destruct Q as (I2 & L2 & G2 & R2 & E2). split; [exact I2|]. split; [eapply lists_frame_trans; eauto|].
+      destruct Q as ((I2 & L2 & G2 & R2 & E2) & V2). split; [|exact V2]. split; [exact I2|]. split; [eapply lists_frame_trans; eauto|].
       split; [eapply grown_trans; eauto|]. split; [exact R2|]. rewrite E2. unfold run1. cbn [dr_ctxs]. exact Hlrs.
-    + split; [exact I1|]. split; [exact L1|]. split; [exact G1|]. split; [|cbn [dr_ctxs]; exact Hlrs].
+    + split; [|exact V1]. split; [exact I1|]. split; [exact L1|]. split; [exact G1|]. split; [|cbn [dr_ctxs]; exact Hlrs].
       split; [exact Hb|]. split; [exact Ha|]. intros i dc1 Hn1. cbn [dr_ctxs dr_progress] in *. unfold set_nth_ctx in Hn1.
       destruct (Z.eq_dec i (dr_progress run)) as [->|Hne].
       * rewrite nth_z_set_same in Hn1 by exact Hrg. injection Hn1 as <-. split; [intros _; rewrite Elr, Em; exact M1|congruence].
       * rewrite nth_z_set_other in Hn1 by congruence. split; [congruence|intros _; eapply Hidle; eauto].
-  - split; [exact HI|]. split; [apply lists_frame_refl|]. split; [apply grown_refl|]. split; [|reflexivity].
+  - split; [|exact HV]. split; [exact HI|]. split; [apply lists_frame_refl|]. split; [apply grown_refl|]. split; [|reflexivity].
     apply run_idle_ok; auto.
 Qed.
 
-(* BeginDefragPass, no pass open, block lists of granularity 1 *)
+Lemma pass_loop_inv fuel v run p :
+  VamInv c v -> run_idle run -> 0 <= dr_max_bytes run -> 0 <= dr_max_allocs run -> PassProofs.pass_running p -> GV v ->
+  let '(v', run', r) := pass_loop c fuel v run p in
+  match r with
+  | OK _ => VamInv c v' /\ lists_frame v v' /\ grown v v' /\ run_ok v' run' /\ map dc_lr (dr_ctxs run') = map dc_lr (dr_ctxs run)
+  | ER _ => False
+  | _ => True
+  end.
+Proof.
+  intros HI Hidle Hb Ha Hrun HV. pose proof (pass_loop_inv_gv fuel v run p HI Hidle Hb Ha Hrun HV) as P.
+  destruct (pass_loop c fuel v run p) as ((v' & run') & r). destruct r; auto. apply P.
+Qed.
+
+(* BeginDefragPass, no pass open, block lists of any granularity *)
 Lemma defrag_pass_inv v run :
-  VamInv c v -> run_ok v run -> run_idle run -> lists_g1 v run ->
+  VamInv c v -> run_ok v run -> run_idle run -> GV v ->
   let '(v', run', r) := defrag_pass c v run in
   match r with
   | OK _ => VamInv c v' /\ lists_frame v v' /\ grown v v' /\ run_ok v' run' /\ map dc_lr (dr_ctxs run') = map dc_lr (dr_ctxs run)
@@ -788,6 +845,13 @@ Lemma defrag_pass_inv v run :
 Proof.
   intros HI (Hb & Ha & _) Hidle HG. unfold defrag_pass.
   apply pass_loop_inv; auto. apply PassProofs.pass_init_running; auto.
+Qed.
+
+Lemma defrag_pass_G v run v' run' mvs :
+  VamInv c v -> run_ok v run -> run_idle run -> GV v -> defrag_pass c v run = (v', run', OK mvs) -> GV v'.
+Proof.
+  intros HI (Hb & Ha & _) Hidle HG E. unfold defrag_pass in E.
+  pose proof (pass_loop_inv_gv (S (length (dr_ctxs run))) v run _ HI Hidle Hb Ha (PassProofs.pass_init_running _ _ Hb Ha) HG) as P. rewrite E in P. apply P.
 Qed.
 
 End WithCfg.
